@@ -1,4 +1,5 @@
 import PcfgVerif.Properties.PQCore
+import PcfgVerif.Lemmas.SoftFloatLemmas
 /-!
 # C02 — every pre-terminal of the grammar is emitted exactly once
 
@@ -34,6 +35,14 @@ theorem C02_lookups_in_range (A : PAlg P) (g : Grid P) (hwf : WF A.toPOps g) (s 
     (h : Reach A.toPOps g (initNodes g) s) (v : Node) (hv : v ∈ s.queue) :
     v.b < g.length ∧ validIdx (g.struct v.b).cols v.idx = true :=
   (pq_exactly_once A g hwf s h).2.1 v (List.mem_append_right _ hv)
+
+/-- **binary64 instance** (see `C01_order_binary64`): exactly-once for IEEE-754 doubles, every tie,
+rounding difference, denormal and underflow to zero included, with no floating-point hypothesis -/
+theorem C02_exactly_once_binary64 (g : Grid Nat) (hwf : WF sfAlg.toPOps g) (s : PQState)
+    (h : Reach sfAlg.toPOps g (initNodes g) s) :
+    (s.popped ++ s.queue).Nodup ∧ (∀ v ∈ s.popped ++ s.queue, ValidNode g v) ∧
+      (s.queue = [] → s.popped.Perm (allNodes g)) :=
+  C02_exactly_once sfAlg g hwf s h
 
 /-- non-vacuity: on the 2×2 grid whose two middle nodes tie exactly, both resolutions of the tie are
 reachable and both emit the four nodes once -/
